@@ -572,7 +572,9 @@ func (h *Session) IPAddrs(mac net.HardwareAddr) []Addr {
 
 	list := make([]Addr, 0, len(e.HostList))
 	for _, host := range e.HostList {
-		list = append(list, host.Addr)
+		addr := host.Addr
+		addr.MAC = CopyMAC(addr.MAC) // the caller owns the result
+		list = append(list, addr)
 	}
 	return list
 }
